@@ -113,6 +113,21 @@ def inputs(ctx):
             langs.append(lst)
             layouts.append(lay)
         ins.append({"id": "r%d" % k, "writer": w, "langs": langs, "parts": layouts})
+    # equal timespans that are NOT consecutive (another cue in between), overlapping and unsorted
+    # lists: only a run of consecutive equal spans may be merged.  The SAMI writer places cues by
+    # time and is left out of this family.
+    pool = [(1000000, 2000000), (1000000, 3000000), (2000000, 3000000), (5000000, 5000000), (0, 0), (12000000, 14000000),
+            (10000000, 12000000)]
+    n = 0
+    seqs = [[0, 1, 0], [0, 0, 1, 0], [6, 5, 6], [0, 2, 0, 2], [3, 0, 3], [4, 0, 4, 4], [1, 0, 0, 1], [0, 1, 2, 1, 0]]
+    for _ in range(40 if ctx.quick else 2000):
+        seqs.append([rng.randrange(len(pool)) for _ in range(rng.randrange(3, 9))])
+    for seq in seqs:
+        for w in WR:
+            if w == "SAMI":
+                continue
+            ins.append({"id": "u%d" % n, "writer": w, "langs": [[(_t(Fraction(pool[i][0])), _t(Fraction(pool[i][1]))) for i in seq]]})
+            n += 1
     return ins
 
 
